@@ -2,7 +2,7 @@
 from types import SimpleNamespace
 
 _DEFAULT_SHARDS = {"quick": 12, "thorough": 16}
-_DEFAULT_BUDGET = {"quick": 150, "thorough": 1500}   # seconds per shard after which generation stops (never a violation)
+_DEFAULT_BUDGET = {"quick": 150, "thorough": 1500}   # seconds per shard and sub-search after which generation stops (never a violation)
 
 META = {}
 
@@ -323,7 +323,9 @@ _extend("C08", "a third seeded run after using the generator in other ways (an o
                "gamma / erlang / binomial draws) must equal the first; a verdict that varies between executions of one case is "
                "reported with a replay that runs the case repeatedly in one process.  A second sub-search builds "
                "LineageModels incrementally (growth / division / death rules and events, with and without parameters, "
-               "added one at a time in random order around py_initialize and seeded lineage / single-cell simulations) "
+               "added one at a time in random order around py_initialize and seeded lineage / single-cell simulations; in half "
+               "of them the base reactions are added one at a time as well, and parameters and initial amounts take temporary "
+               "values that are put back before the comparison) "
                "and compares cell counts, per-cell records and the single-cell trace with a LineageModel given the "
                "same definition at once (2.5k quick / 30k thorough histories).")
 _extend("C09", "dt counters and ODE rules may target a parameter that a repeated rule mirrors into an observable species; one "
